@@ -1,5 +1,6 @@
 import Lean.Data.Json
 import MoSql.Gen.Levels
+import MoSql.Gen.FmtTable
 /-
 Line-protocol driver: one JSON request per line on stdin, one JSON answer per line on stdout.
 Imports the model files and Lean's JSON library only (no Mathlib), so it is also built as the
@@ -152,21 +153,6 @@ def getNull (req : Json) : Except String J :=
 
 def jstr (s : String) : String := "\"" ++ J.escapeStr s ++ "\""
 
-/- all activations of `make_tree` inside `e` see a well-formed, precedence-compatible tree -/
-mutual
-partial def okAll (e : E) : Bool :=
-  let w := E.toW Gen.ctx e
-  w.wfB Gen.levels && w.compatB && okSub e
-partial def okSub : E → Bool
-  | .atom _ _ => true
-  | .paren e => okAll e
-  | .call _ args => args.all okAll
-  | .pre _ e => okSub e
-  | .cast _ e _ => okSub e
-  | .bin _ l r => okSub l && okSub r
-  | .tern _ a b c => okSub a && okSub b && okSub c
-end
-
 def handleExpr (req : Json) : Except String String := do
   let ej ← req.getObjVal? "e"
   let e ← toE ej
@@ -175,7 +161,7 @@ def handleExpr (req : Json) : Except String String := do
   let model := E.parseE Gen.ctx cfg x e
   let drops := E.dropsTop Gen.ctx e
   pure ("{\"sql\":" ++ jstr (E.render e) ++ ",\"model\":" ++ model.render ++
-    ",\"drops\":" ++ toString drops ++ ",\"ok\":" ++ toString (okAll e) ++ "}")
+    ",\"drops\":" ++ toString drops ++ ",\"ok\":" ++ toString (E.okTop Gen.ctx e) ++ "}")
 
 def handleScrub (req : Json) : Except String String := do
   let rj ← req.getObjVal? "raw"
@@ -183,6 +169,43 @@ def handleScrub (req : Json) : Except String String := do
   let cfg := getCfg req
   let x ← getNull req
   pure ("{\"model\":" ++ (Scrub.run cfg x r).render ++ "}")
+
+partial def toT : Json → Except String T
+  | .arr xs =>
+    match xs.toList with
+    | [.str "leaf", .str t, r] => do
+      let x ← toRaw r
+      pure (.leaf t x)
+    | [.str "bin", .str name, l, r] => do
+      match Gen.fmtOps.findIdx? (fun o => o.name == name) with
+      | some k => do
+        let x ← toT l
+        let y ← toT r
+        pure (.bin k x y)
+      | none => err ("not an Operator renderer: " ++ name)
+    | _ => err "bad T"
+  | _ => err "bad T"
+
+def handleFmt (req : Json) : Except String String := do
+  let tj ← req.getObjVal? "t"
+  let t ← toT tj
+  let p := match req.getObjValAs? Int "prec2" with
+    | .ok p => p
+    | .error _ => 200
+  let e := Fmt.fmtE Gen.fmtOps t p
+  let model := E.parseE Gen.ctx {} Scrub.sqlNullNode e
+  pure ("{\"sql\":" ++ jstr (E.render e) ++ ",\"ok\":" ++ toString (E.okTop Gen.ctx e) ++
+    ",\"admissible\":" ++ toString (Fmt.admissible Gen.knownFmtTriples Gen.fmtOps t) ++
+    ",\"model\":" ++ model.render ++ "}")
+
+/-- rows of the formatter table that violate the soundness obligation (ignoring the known list) -/
+def handleFmtTable : String :=
+  let bad := Gen.fmtOps.foldl (fun acc o =>
+    Gen.fmtOps.foldl (fun acc c =>
+      let acc := if Fmt.tripleOK [] o c 0 then acc else acc ++ ["[" ++ jstr o.name ++ ",0," ++ jstr c.name ++ "]"]
+      if Fmt.tripleOK [] o c 1 then acc else acc ++ ["[" ++ jstr o.name ++ ",1," ++ jstr c.name ++ "]"]) acc) []
+  "{\"bad\":[" ++ ",".intercalate bad ++ "],\"ops\":[" ++
+    ",".intercalate (Gen.fmtOps.map fun o => jstr o.name) ++ "]}"
 
 def handle (line : String) : String :=
   match Json.parse line with
@@ -192,6 +215,8 @@ def handle (line : String) : String :=
       match req.getObjValAs? String "op" with
       | .ok "expr" => handleExpr req
       | .ok "scrub" => handleScrub req
+      | .ok "fmt" => handleFmt req
+      | .ok "fmtTable" => pure handleFmtTable
       | .ok "ping" => pure "{\"pong\":true}"
       | .ok o => err ("unknown op " ++ o)
       | .error e => err e
